@@ -1,10 +1,11 @@
 (* Properties_C17.v — t-digest: weight conservation, exact extremes, sorted centroids, singleton extremes,
-   rank / quantile range and monotonicity.  Statements only; proofs live in TDigestProofs.v.
+   rank / quantile / CDF / PMF range, monotonicity and coherence, dead tail branches.  Statements only; proofs live in
+   TDigestProofs.v (invariants), TDigestQuantile.v, TDigestRank.v, TDigestCdf.v; the defects as found: Regression_tdigest.v.
    [reachable Ops s vs]: s is obtained by ANY history of new / update / merge (of any two reachable digests) / compress /
    get_rank / get_quantile / get_CDF / get_PMF / serialize / deserialize; vs is the ghost list of accepted (non-NaN) values,
    merged digests included. *)
 From Coq Require Import ZArith List Bool QArith Lia Sorting.Sorted.
-From DS Require Import RunnerLib TDigestDefs TDigestProofs TDigestQuantile.
+From DS Require Import RunnerLib TDigestDefs TDigestProofs TDigestQuantile TDigestRank TDigestCdf.
 Import ListNotations.
 
 (* ---- for ANY number structure (binary64 with NaN and infinities included) ---- *)
@@ -15,6 +16,18 @@ Proof. intros Ops s vs H. exact (proj2 (weight_conservation Ops s vs H)). Qed.
 Theorem C17_centroids_weight : forall (Ops : numops) s vs, reachable Ops s vs ->
   t_cw Ops s = sumw Ops (t_cents Ops s).
 Proof. intros Ops s vs H. exact (proj1 (weight_conservation Ops s vs H)). Qed.
+
+(* get_rank outside [min, max] and the clamp of the interpolation hold by the shape of the code alone, hence for binary64 too *)
+Theorem C17_rank_outside_any : forall (Ops : numops) s v, td_is_empty Ops s = false -> nisnan Ops v = false ->
+  (nltb Ops v (t_min Ops s) = true -> snd (td_rank Ops s v) = Some (n0 Ops)) /\
+  (nltb Ops v (t_min Ops s) = false -> nltb Ops (t_max Ops s) v = true -> snd (td_rank Ops s v) = Some (n1 Ops)).
+Proof. exact reach_rank_outside_any. Qed.
+
+Theorem C17_weighted_average_clamped_any : forall (Ops : numops) x1 w1 x2 w2,
+  let r := weighted_average Ops x1 w1 x2 w2 in
+  r = nmin Ops x1 x2 \/ r = nmax Ops x1 x2 \/
+  (nltb Ops r (nmin Ops x1 x2) = false /\ nltb Ops (nmax Ops x1 x2) r = false).
+Proof. exact reach_weighted_average_clamped_any. Qed.
 
 (* ---- exact rationals; ln is an arbitrary function, pinf / ninf bound the streamed values ---- *)
 Section Exact.
@@ -57,15 +70,7 @@ Section Exact.
     t_buf QO s' = [] /\
     (exists f t, t_cents QO s' = f :: t /\ c_mean QO f == t_min QO s' /\ c_w QO f = 1%Z) /\
     (exists la t, t_cents QO s' = t ++ [la] /\ c_mean QO la == t_max QO s' /\ c_w QO la = 1%Z).
-  Proof.
-    intros s vs H B Hne s'. pose proof (reach_inv ln pinf ninf s vs H B) as I.
-    assert (E : td_is_empty QO s = false).
-    { destruct (td_is_empty QO s) eqn:E; auto. apply (i_empty _ _ _ _ _ I) in E. contradiction. }
-    destruct (compress_Good ln pinf ninf s vs I E) as [C _ (f & t & Ef & Mf) (la & t2 & El & Ml)]. fold s' in C, Ef, Mf, El, Ml.
-    split; [apply compress_buf|]. split.
-    - exists f, t. repeat split; auto. exact (ci_first _ _ _ _ C f t Ef).
-    - exists la, t2. repeat split; auto. exact (ci_last _ _ _ _ C la t2 El).
-  Qed.
+  Proof. exact (reach_extremes_are_min_max ln pinf ninf). Qed.
   (* get_quantile (interpolation as repaired by fixes/17_quantile_weights.patch and 17_weighted_average_clamp.patch; the code
      as found is refuted in Regression_tdigest.v): always within [min, max], non-decreasing in the rank, and
      quantile(0) = min, quantile(1) = max — for every reachable digest, any normaliser, exact arithmetic *)
@@ -81,6 +86,63 @@ Section Exact.
     exists q0 q1, snd (td_quantile QO s 0) = Some q0 /\ snd (td_quantile QO s 1) = Some q1 /\
                   q0 == t_min QO s /\ q1 == t_max QO s.
   Proof. intros s vs H B. exact (td_quantile_ends ln pinf ninf s vs (reach_inv ln pinf ninf s vs H B)). Qed.
+  (* get_rank: within [0,1], 0 below min and 1 above max, non-decreasing in the value *)
+  Theorem C17_rank_range : forall s vs v r, reachable QO s vs -> bounded pinf ninf vs ->
+    snd (td_rank QO s v) = Some r ->
+    0 <= r /\ r <= 1 /\ (v < t_min QO s -> r == 0) /\ (t_max QO s < v -> r == 1).
+  Proof. intros s vs v r H B. exact (td_rank_range ln pinf ninf s vs v r (reach_inv ln pinf ninf s vs H B)). Qed.
+
+  Theorem C17_rank_monotone : forall s vs v1 v2 r1 r2, reachable QO s vs -> bounded pinf ninf vs -> v1 <= v2 ->
+    snd (td_rank QO s v1) = Some r1 -> snd (td_rank QO s v2) = Some r2 -> r1 <= r2.
+  Proof. intros s vs v1 v2 r1 r2 H B. exact (td_rank_mono ln pinf ninf s vs v1 v2 r1 r2 (reach_inv ln pinf ninf s vs H B)). Qed.
+
+  (* get_CDF = get_rank at every split point (on the same digest, flushed or not) followed by 1;
+     get_PMF = first differences of get_CDF, summing to 1 *)
+  Theorem C17_cdf_is_rank : forall s vs l out, reachable QO s vs -> bounded pinf ninf vs ->
+    snd (td_cdf QO s l) = Some out ->
+    exists rs, out = rs ++ [1] /\ Forall2 (fun v r => snd (td_rank QO s v) = Some r) l rs.
+  Proof. intros s vs l out H B. exact (td_cdf_spec ln pinf ninf s vs l out (reach_inv ln pinf ninf s vs H B)). Qed.
+
+  Theorem C17_pmf_is_cdf_differences : forall s vs l p, reachable QO s vs -> bounded pinf ninf vs ->
+    snd (td_pmf QO s l) = Some p ->
+    exists c0 ct, snd (td_cdf QO s l) = Some (c0 :: ct) /\ p = c0 :: diffs QO c0 ct /\ qsum p == 1.
+  Proof. intros s vs l p H B. exact (td_pmf_spec ln pinf ninf s vs l p (reach_inv ln pinf ninf s vs H B)). Qed.
+
+  (* the tail formulas of get_rank and get_quantile (written for a first / last centroid of weight > 1, the left one of
+     get_rank lacking the division by the total weight) cannot execute on a reachable digest: for min <= v <= max neither
+     tail test of get_rank fires, and the guards "first weight > 1" / "last weight > 1" of get_quantile are false *)
+  Theorem C17_tail_branches_unreachable : forall s vs, reachable QO s vs -> bounded pinf ninf vs -> vs <> [] ->
+    let s' := td_compress QO s in
+    (forall v, t_min QO s <= v -> v <= t_max QO s ->
+       nltb QO v (c_mean QO (cnth QO (t_cents QO s') 0)) = false /\
+       nltb QO (c_mean QO (last_c QO (t_cents QO s') (dflt QO))) v = false) /\
+    nltb QO (n1 QO) (nofZ QO (c_w QO (cnth QO (t_cents QO s') 0))) = false /\
+    nltb QO (n1 QO) (nofZ QO (c_w QO (last_c QO (t_cents QO s') (dflt QO)))) = false.
+  Proof. exact (reach_tail_branches_unreachable ln pinf ninf). Qed.
+  (* the statement after the interpolation loop of get_quantile (it averages the WEIGHT of the last centroid with max_) cannot
+     execute either: between the answers "min" (weight < 1) and "max" (weight > total - 1) the loop always finds its segment *)
+  Theorem C17_quantile_fallthrough_unreachable : forall s vs r, reachable QO s vs -> bounded pinf ninf vs -> vs <> [] ->
+    let s' := td_compress QO s in
+    (2 <= length (t_cents QO s'))%nat ->
+    1 <= r * inject_Z (t_cw QO s') -> r * inject_Z (t_cw QO s') <= inject_Z (t_cw QO s') - 1 ->
+    q_loop QO (t_cents QO s') (r * inject_Z (t_cw QO s')) (wsf0 ln pinf ninf (t_cents QO s')) <> None.
+  Proof. exact (reach_quantile_fallthrough_unreachable ln pinf ninf). Qed.
+  (* merging is one of the history steps of [reachable]; spelled out: a merge of two reachable digests represents the
+     concatenation of their streams — weight adds up, min / max are the exact extremes of both streams *)
+  Corollary C17_merge : forall s vs o vo, reachable QO s vs -> reachable QO o vo -> bounded pinf ninf (vs ++ vo) -> vs ++ vo <> [] ->
+    td_total QO (td_merge QO s o) = (Z.of_nat (length vs) + Z.of_nat (length vo))%Z /\
+    is_min (t_min QO (td_merge QO s o)) (vs ++ vo) /\ is_max (t_max QO (td_merge QO s o)) (vs ++ vo).
+  Proof. exact (reach_merge ln pinf ninf). Qed.
+  (* get_PMF is non-negative (so get_CDF is non-decreasing along the split points and within [0,1]) *)
+  Theorem C17_pmf_nonnegative : forall s vs l p, reachable QO s vs -> bounded pinf ninf vs ->
+    snd (td_pmf QO s l) = Some p -> Forall (fun x => 0 <= x) p.
+  Proof. intros s vs l p H B. exact (td_pmf_nonneg ln pinf ninf s vs l p (reach_inv ln pinf ninf s vs H B)). Qed.
+
+  (* every centroid mean and every buffered value lies within [min, max] *)
+  Theorem C17_means_within : forall s vs, reachable QO s vs -> bounded pinf ninf vs ->
+    Forall (fun c => t_min QO s <= c_mean QO c /\ c_mean QO c <= t_max QO s) (t_cents QO s) /\
+    Forall (fun v => t_min QO s <= v /\ v <= t_max QO s) (t_buf QO s).
+  Proof. intros s vs H B. exact (means_within ln pinf ninf s vs (reach_inv ln pinf ninf s vs H B)). Qed.
 End Exact.
 
 (* ---- non-vacuity: a concrete history over Q (k = 10, normaliser 2k/24, i.e. ln = 0): 30 updates, then compress ---- *)
@@ -120,6 +182,18 @@ Example C17_quantile_nonvacuous :
   end.
 Proof. vm_compute. repeat split; reflexivity. Qed.
 
+(* rank / CDF / PMF theorems are not vacuous: on the example digest get_rank answers 0 below min, 1 above max, strictly inside
+   (0,1) and strictly increasing between; get_CDF and get_PMF answer *)
+Example C17_rank_nonvacuous :
+  match snd (td_rank ex_ops ex_digest (-1)), snd (td_rank ex_ops ex_digest 8), snd (td_rank ex_ops ex_digest 10),
+        snd (td_rank ex_ops ex_digest 98), snd (td_cdf ex_ops ex_digest [8; 10]), snd (td_pmf ex_ops ex_digest [8; 10]) with
+  | Some a, Some b, Some c, Some d, Some [c1; c2; c3], Some [p1; p2; p3] =>
+      Qeq_bool a 0 = true /\ Qle_bool b 0 = false /\ Qle_bool c b = false /\ Qle_bool 1 c = false /\ Qeq_bool d 1 = true /\
+      Qeq_bool c1 b = true /\ Qeq_bool c2 c = true /\ Qeq_bool (p1 + p2 + p3) 1 = true
+  | _, _, _, _, _, _ => False
+  end.
+Proof. vm_compute. repeat split; reflexivity. Qed.
+
 Print Assumptions C17_weight.
 Print Assumptions C17_centroids_weight.
 Print Assumptions C17_is_empty.
@@ -130,3 +204,14 @@ Print Assumptions C17_extremes_are_min_max.
 Print Assumptions C17_quantile_range.
 Print Assumptions C17_quantile_monotone.
 Print Assumptions C17_quantile_ends.
+Print Assumptions C17_rank_range.
+Print Assumptions C17_rank_monotone.
+Print Assumptions C17_cdf_is_rank.
+Print Assumptions C17_pmf_is_cdf_differences.
+Print Assumptions C17_tail_branches_unreachable.
+Print Assumptions C17_quantile_fallthrough_unreachable.
+Print Assumptions C17_merge.
+Print Assumptions C17_rank_outside_any.
+Print Assumptions C17_weighted_average_clamped_any.
+Print Assumptions C17_pmf_nonnegative.
+Print Assumptions C17_means_within.
